@@ -168,11 +168,15 @@ class Fam(Strategy):
             aave = self.markets[AAVE_KEY]
             tok = {t.name: t for t in aave.tokens}
             aave.supply(tok["WETH"], Decimal(6), True)
+            aave.get_max_withdraw_amount(tok["WETH"])          # a read-only query (no debt yet) before borrowing
             aave.borrow(tok["USDT"], Decimal(2000))
         elif self.kind in ("opt", "opt2") and snapshot.row_id == 0:   # option takers: both lift the same ask level of the same hour
             opt = self.markets[OPT_KEY]
             opt.deposit(Decimal(5) if self.kind == "opt" else Decimal(3))
-            opt.buy("C", Decimal(8))
+            if self.kind == "opt":
+                opt.buy("C", Decimal(8))
+            else:                                              # the second taker caps the price it accepts (1.1 x mark: the first level only)
+                opt.buy("C", Decimal(8), max_mark_price_multiple=Decimal("1.1"))
         elif self.kind == "opt2" and snapshot.row_id == 3:            # (closed bar: the order is refused, the deposit is not)
             opt = self.markets[OPT_KEY]
             opt.deposit(Decimal(1))
